@@ -455,8 +455,9 @@ func (p *Printer) Block(b *Block, col int) []string {
 		case 4:
 			out = append(out, ind+"/* c", ind+"   c */")
 		case 5:
-			// stars next to the end mark, an even and an odd run (what is INSIDE a comment must not matter)
-			out = append(out, ind+"/** c **/", ind+"/****/", ind+"/* * / ***/")
+			// an even run of stars next to the end mark (what is INSIDE a comment must not matter); alone, so that
+			// code follows it directly
+			out = append(out, ind+"/** c **/")
 		}
 		out = append(out, ind+ls[0])
 		out = append(out, ls[1:]...)
@@ -573,7 +574,7 @@ func (p *Printer) armsDecor(d *doc, col int) {
 	case 4:
 		d.lines = append(d.lines, ind+"/* c", ind+"   c */")
 	case 5:
-		d.lines = append(d.lines, ind+"/** c **/", ind+"/****/", ind+"/* * / ***/")
+		d.lines = append(d.lines, ind+"/** c **/")
 	}
 }
 
